@@ -20,6 +20,12 @@ func Root() string {
 	if d := os.Getenv("VERIF_ROOT"); d != "" {
 		return d
 	}
+	// the scripts cd into the checkout they belong to (which may be a snapshot of /verif)
+	if wd, err := os.Getwd(); err == nil {
+		if _, err := os.Stat(filepath.Join(wd, "known_findings.json")); err == nil {
+			return wd
+		}
+	}
 	return "/verif"
 }
 
